@@ -2485,7 +2485,8 @@ class CencSampleEncryptionBox(FullBox):
             except AttributeError:
                 rv["iv_size"] = kwargs["options"].iv_size
         num_entries = r.get('I', 'num_entries')
-        assert rv['iv_size'] in {8, 16}
+        # (an IV size of zero is used with the constant IV of the tenc box)
+        assert rv['iv_size'] in {0, 8, 16}
         rv["samples"] = []
         saiz = parent.find_child('saiz')
         if saiz is None:
